@@ -14,6 +14,7 @@ type Job struct {
 	Params map[string]string
 	Opts   RunOpts
 	Tag    string
+	Case   string // coarse case key used to group failures and to match known findings (defaults to Tag)
 }
 
 type Pool struct {
